@@ -1096,10 +1096,13 @@ def advanced(prev, cur, n):
 
 
 def model_cfg(case, seed):
+    # `cnn`: NatureCNN samples the observation space once for its shape (values discarded), which lazily creates the space's
+    # generator from OS entropy. A loaded model's observation space is the donor's pickled space, whose generator already
+    # exists: no OS draw happens in the run that loads.
     noise = (case.get("noise") or "none").replace("vec_", "")
     return {"algo": case["algo"], "nEnvs": case["n_envs"], "seed": seed, "useSde": bool(case["use_sde"]),
             "sdeFreq": max(0, case["sde_freq"]), "useSdeAtWarmup": bool(case["sde_at_warmup"]), "noise": noise,
-            "learningStarts": case.get("learning_starts", 0), "cnn": case["obs"] == "image", "envPy": case["env_py"],
+            "learningStarts": case.get("learning_starts", 0), "cnn": case["obs"] == "image" and not case.get("via_load"), "envPy": case["env_py"],
             "envNp": case["env_npg"], "initDraws": 1}
 
 
